@@ -9,6 +9,7 @@ import (
 	"go.nanomsg.org/mangos/v3/internal/core"
 	_ "go.nanomsg.org/mangos/v3/transport/inproc"
 	_ "go.nanomsg.org/mangos/v3/transport/tcp"
+	"go.nanomsg.org/mangos/v3/vh/c14"
 	"go.nanomsg.org/mangos/v3/vh/kinds"
 	"go.nanomsg.org/mangos/v3/vh/kit"
 	net "go.nanomsg.org/mangos/v3/vh/vnet"
@@ -39,6 +40,7 @@ func init() {
 			&vexplore.Scenario{Name: "inproc-dial-waiting-vs-listener-close", Mode: "sched", Bound: b, Reset: kit.ResetGlobals, Body: inprocDialWaiting},
 			&vexplore.Scenario{Name: fmt.Sprintf("core-objects-hist-D%d", d), Mode: "hist", Reset: kit.ResetGlobals, Body: func() { coreHist(d) },
 				NeedCounters: []string{"census-clean", "closed-listener", "closed-dialer", "closed-pipe", "redial-pending-at-close", "refused-pipe", "closed-in-attached-callback"}},
+			&vexplore.Scenario{Name: "socket-with-several-dialers-and-listeners-closed", Mode: "enum", Reset: kit.ResetGlobals, Body: c14.SeveralEndpointsClosed, NeedCounters: []string{"three-or-more-dialers-all-stopped"}},
 			&vexplore.Scenario{Name: "close-context-only", Mode: "enum", Reset: kit.ResetGlobals, Body: closeContextOnly},
 			&vexplore.Scenario{Name: "tcp-close-vs-incoming-connection", Mode: "sched", Bound: b + 1, Reset: kit.ResetGlobals, Body: tcpCloseVsAccept},
 			&vexplore.Scenario{Name: "close-of-a-listener-that-never-owned-the-address", Mode: "enum", Reset: kit.ResetGlobals, Body: closeLoserListener,
